@@ -66,7 +66,7 @@ def ref_commands(lines):
     return out, any(c == "raises" for c in parsed)
 
 
-def _run(files, order, scratch):
+def _run(files, order, scratch, eapi="8"):
     """files: [(name, [lines])]; order: creation order on disk"""
     import shutil
     from pkgcore.ebuild.pkg_updates import read_updates
@@ -78,7 +78,7 @@ def _run(files, order, scratch):
         name, lines = files[i]
         with open(os.path.join(d, name), "w") as f:
             f.write("".join(l + "\n" for l in lines))
-    return read_updates(d, get_eapi("8"))
+    return read_updates(d, get_eapi(eapi))
 
 
 def enum_updates(seed):
@@ -136,7 +136,7 @@ def enum_updates(seed):
         # quarter files of different years: chronological order is what the statement's "sequence of files" means
         fs = [("4Q-2019", ["move cat/a cat/b"]), ("1Q-2020", ["move cat/b cat/c"])]
         cases += 1
-        got = _run(fs, [0, 1], scratch)
+        got = _run(fs, [0, 1], scratch, eapi="7")   # EAPI <= 7: quarter-named files, applied by date (EAPI 8 takes any name, in name order)
         want, _ = ref_commands(["move cat/a cat/b", "move cat/b cat/c"])
         if norm(got) != norm(want) and len(fails) < 6:
             fails.append({"model": {"files": fs, "quarter_files_sorted_by_name_not_by_date": True},
